@@ -50,6 +50,25 @@
      - C03_file_tree_empty: the file without any creation, evaluated.
      - Model/TreeFlat.v C03_file_tree_full : Prop is the statement for arbitrary depth (NOT proved).
 
+   Fourth round (closed, universal): C03_file_tree_depth1.  For EVERY history h whose calls are CreateGroup / CreateDataset with a
+   path "/" name in the specification's syntax (Model/TreeFlat.v d1_op: one component, non-empty, no NUL, no '/'; dataset
+   arguments covered) - accepted or REFUSED (duplicate name, heap full, node full) - with the file below 2^62 and at least one
+   successful creation:
+     (1) tree_oks h = the specification's per-call answers (map is_ok of Model/GroupNS.v spec_step under go_cfg);
+     (2) the specification's tree exists, spec_tree = Some tr, and for an address map addr (pinned by
+         node_of_tree addr "/" tr = Grp "/" 2168 (flat_nodes t_init h): the root at 2168, every child at the header address the
+         model's allocator gave the creating call)
+         run0 (tree_image h) (p_open ..) = Ok (node_of_tree addr "/" tr).
+   Its parts: C03_file_prepare_root_decision (checkLinkable on the bytes of a root whose segment/node agree with a name list
+   answers Ok exactly by d1_accept: name not in the list, used + len + 1 <= 256, fewer than 32 entries), C03_file_link_root_total
+   (then linkToParent succeeds: the allocated-but-unlinked branch is unreachable), C03_file_group_answer / _dataset_answer,
+   C03_file_spec_create (the specification accepts by the same d1_accept and appends the child), C03_file_spec_tree_of,
+   C03_file_d1_run (joint induction: FlatInv and the specification's state SpecInv advance together).
+   NOT in the class (so still open for depth 1): calls the specification refuses for other reasons than duplicate / capacity
+   (missing parent, missing hard-link target, malformed path) in between - the model side has them as
+   C03_file_..._refused_unchanged, what is missing is "specification refuses => prepare_link / resolve_addr fail", which needs the
+   key set of fw.groups in the invariant; and successful hard links.
+
    What separates C03_file_tree_depth1_partial from "the specification tree of h":
      (i)   which calls succeed is tree_oks h - the decision of the byte-level model (compared with the library on every run), not
            yet proved equal to the specification's decision (first conjunct of Props/C03.v C03_refines).  Under FlatInv the
@@ -79,7 +98,7 @@ From HV Require Import Model.RobustAlloc Model.RobustGroup Model.CodecType Model
 From HV Require Import Proofs.GroupWireHeap Proofs.GroupWireSnod Proofs.FileImage Proofs.FileImageData.
 From HV Require Import Proofs.FileImageOhdr Model.CodecOhdr Model.CodecSuper.
 From HV Require Import Proofs.TreeImageLink Proofs.TreeImageRead Proofs.TreeImageExamples Proofs.TreeImageHdr Proofs.TreeImageOpen
-  Proofs.TreeImagePlaced Proofs.TreeImageStep Proofs.TreeImageFlat Proofs.TreeImageFlatStep Proofs.TreeImageFlatRead Proofs.TreeImageFlatMain.
+  Proofs.TreeImagePlaced Proofs.TreeImageStep Proofs.TreeImageFlat Proofs.TreeImageFlatStep Proofs.TreeImageFlatRead Proofs.TreeImageFlatMain Proofs.TreeImageDecide Proofs.TreeImageSpecSide Proofs.TreeImageD1.
 From HV Require Import Model.TreeFlat.
 From HV Require Proofs.GroupNSHeap.
 From HV Require Model.GroupNS.
@@ -364,3 +383,73 @@ Theorem C03_file_hardlink_refused_unchanged : forall st p q,
   t_step st (THardLink p q) = (st, false).
 Proof. exact hardlink_refused_unchanged. Qed.
 Print Assumptions C03_file_hardlink_refused_unchanged.
+
+(* ================================================================== fourth round: against the specification *)
+(* checkLinkable on the bytes of the root: Ok exactly by the specification's rule on the name list *)
+Theorem C03_file_prepare_root_decision : forall st (seg : list N) s rest (ns : list bytes),
+  t_file st = image (flat_lay seg s rest) -> blen seg = 256 -> snode_ok s = true -> (length (stn_entries s) <= 32)%nat ->
+  GH.gwf seg (map abs_sym (stn_entries s)) ns -> forall parent, NS.is_root_parent parent = true -> forall nm child,
+  prepare_link st parent nm child = if NS.heap_name_ok nm && d1_accept ns nm then Ok (48, 336) else Err.
+Proof. exact prepare_root_eq. Qed.
+Print Assumptions C03_file_prepare_root_decision.
+
+Theorem C03_file_link_root_total : forall st (seg : list N) s rest (ns : list bytes),
+  t_file st = image (flat_lay seg s rest) -> blen seg = 256 -> snode_ok s = true -> (length (stn_entries s) <= 32)%nat ->
+  GH.gwf seg (map abs_sym (stn_entries s)) ns -> forall parent, NS.is_root_parent parent = true -> forall nm oa,
+  NS.heap_name_ok nm = true -> d1_accept ns nm = true -> oa < 18446744073709551616 ->
+  exists f2, link_to_parent st parent nm oa = Ok f2.
+Proof. exact link_root_ok. Qed.
+Print Assumptions C03_file_link_root_total.
+
+Theorem C03_file_group_answer : forall st nodes p n, FlatInv st nodes -> NS.split_path p = Some [n] ->
+  blen (t_file st) + 3000 < LIM -> snd (t_create_group st p) = d1_accept (map node_name nodes) n.
+Proof. exact group_answer. Qed.
+Print Assumptions C03_file_group_answer.
+
+Theorem C03_file_dataset_answer : forall st nodes p n code dims data, FlatInv st nodes -> NS.split_path p = Some [n] ->
+  blen (t_file st) + blen data + 3000 < LIM -> snd (t_create_dataset st p code dims data) = d1_accept (map node_name nodes) n.
+Proof. exact dataset_answer. Qed.
+Print Assumptions C03_file_dataset_answer.
+
+(* the specification on a root-level creation: accepted exactly by d1_accept on the names it holds, then the child is appended *)
+Theorem C03_file_spec_create : forall t L p n (g : bool) a, SpecInv t L -> NS.split_path p = Some [n] ->
+  let acc := d1_accept (map en_name L) n in
+  let r := NS.s_create NS.go_cfg t p (if g then NS.SG [] else NS.SD) in
+  NS.is_ok (snd r) = acc /\
+  SpecInv (fst r) (if acc then L ++ [{| en_name := n; en_id := NS.s_clock t; en_grp := g; en_addr := a |}] else L).
+Proof. exact spec_create. Qed.
+Print Assumptions C03_file_spec_create.
+
+Theorem C03_file_spec_tree_of : forall t L, SpecInv t L ->
+  NS.spec_tree t = Some (NS.TNode 0 NS.KGroup (map (fun e => (en_name e, ent_tree e)) L)).
+Proof. exact spec_tree_of. Qed.
+Print Assumptions C03_file_spec_tree_of.
+
+Theorem C03_file_d1_run : forall h st t L, FlatInv st (map ent_node L) -> SpecInv t L -> forallb d1_op h = true -> bounded st h ->
+  exists L', FlatInv (fst (t_run st h)) (map ent_node L') /\
+    SpecInv (fst (NS.run (NS.spec_step NS.go_cfg) t (map ns_op h))) L' /\
+    snd (t_run st h) = map NS.is_ok (snd (NS.run (NS.spec_step NS.go_cfg) t (map ns_op h))) /\
+    map ent_node L' = map ent_node L ++ flat_nodes st h /\ flat_hist st h.
+Proof. exact d1_run. Qed.
+Print Assumptions C03_file_d1_run.
+
+Theorem C03_file_tree_depth1 : forall h n hfuel, (4 < hfuel)%nat -> forallb d1_op h = true -> bounded t_init h ->
+  2197 <= blen (t_file (fst (tree_run h))) -> blen (t_file (fst (tree_run h))) + 4000 < FLAT_LIM ->
+  let sp := NS.run (NS.spec_step NS.go_cfg) NS.s_empty (map ns_op h) in
+  tree_oks h = map NS.is_ok (snd sp) /\
+  exists tr addr, NS.spec_tree (fst sp) = Some tr /\
+    node_of_tree addr [47] tr = Grp [47] 2168 (flat_nodes t_init h) /\
+    run0 (tree_image h) (p_open true (blen (tree_image h)) (S (S (S (S (S n))))) hfuel) = Ok (node_of_tree addr [47] tr).
+Proof. exact tree_depth1. Qed.
+Print Assumptions C03_file_tree_depth1.
+
+(* its hypotheses are satisfiable, on a history with two calls that library and specification both refuse *)
+Theorem C03_file_tree_depth1_witness :
+  forallb d1_op d1_ex = true /\ bounded t_init d1_ex /\ 2197 <= blen (t_file (fst (tree_run d1_ex))) /\
+  blen (t_file (fst (tree_run d1_ex))) + 4000 < FLAT_LIM /\
+  tree_oks d1_ex = [true; true; false; false] /\
+  map NS.is_ok (snd (NS.run (NS.spec_step NS.go_cfg) NS.s_empty (map ns_op d1_ex))) = [true; true; false; false] /\
+  NS.spec_tree (fst (NS.run (NS.spec_step NS.go_cfg) NS.s_empty (map ns_op d1_ex)))
+    = Some (NS.TNode 0 NS.KGroup [([103], NS.TNode 1 NS.KGroup []); ([100], NS.TNode 2 NS.KData [])]).
+Proof. exact d1_ex_ok. Qed.
+Print Assumptions C03_file_tree_depth1_witness.
